@@ -421,6 +421,9 @@ func c03Run(c *core.Ctx) {
 				continue
 			}
 			cs := mkCase("<?php "+s.Src, v, "construct schema `"+s.Src+"`")
+			if strings.HasPrefix(s.Src, "RAW:") { // the whole file, not a body after the open tag
+				cs = mkCase(s.Src[4:], v, "construct schema `"+s.Src+"`")
+			}
 			cs.Aux = s.Kind + ":" + s.Want
 			if s.Kind == "invalid" {
 				cs.Aux = "invalid"
